@@ -57,6 +57,32 @@ def name_role(n):
     return 'identifier' if re.match(r'^\w+$', n) else 'expression'
 
 
+class Rec(object):
+    """Per-case recorder: judge() runs in worker threads, the Check object is only touched from the main thread."""
+
+    def __init__(self):
+        self.calls = []
+
+    def ev(self, n=1):
+        self.calls.append(('ev', (n,)))
+
+    def seen(self, *t):
+        self.calls.append(('seen', t))
+
+    def tag(self, t, n=1):
+        self.calls.append(('tag', (t, n)))
+
+    def count(self, name, n=1):
+        self.calls.append(('count', (name, n)))
+
+    def inconc(self, reason):
+        self.calls.append(('inconc', (reason,)))
+
+    def replay(self, chk):
+        for m, a in self.calls:
+            getattr(chk, m)(*a)
+
+
 def prepare(case):
     """Emit headers, plan the accessor driver, build library + harnesses."""
     s = case.schema
@@ -244,9 +270,18 @@ def main(chk):
     env = build.env(bdir)
     with ThreadPoolExecutor(max(2, build.NCPU // 3)) as ex:
         list(ex.map(prepare, cases))
-    build._prune('sch-', 200)
+
+    def work(c):
+        # the schema-library cache is shared and pruned (LRU) by every check: rebuild what was evicted meanwhile
+        if c.dir and not os.path.exists(os.path.join(c.dir, 'regdump')):
+            prepare(c)
+        rec = Rec()
+        return c, judge(rec, c, env), rec
     nfail = 0
-    for case, found in run.pmap(lambda c: (c, judge(chk, c, env)), cases):
+    results = run.pmap(work, cases, jobs=max(2, build.NCPU // 2))
+    build._prune('sch-', 200)
+    for case, found, rec in results:
+        rec.replay(chk)
         if case.fail is not None and case.origin != 'probe':
             nfail += 1
         for key, what, files in found:
